@@ -260,3 +260,28 @@ func VH_C13_protprop(kind, prop, vk int) {
 	vhCanary(env, in)
 	vreach("end")
 }
+
+// VH_C13_varchain: stored strings that look like variables bind the query's variables to
+// one another (?x -> "?y", ?y -> "?x"); a later conjunct that mentions them substitutes
+// the bindings into its pattern. Whatever the strings, the query returns.
+func VH_C13_varchain(kind int) {
+	env, in := vhC13Env(kind)
+	s1, s2 := vsymStrN("s1", 2), vsymStrN("s2", 2)
+	_, err := env.loc.AddFact(env.ctx, "f", Map{"a": s1, "b": s2})
+	vassume(err == nil)
+	_, err = env.loc.AddFact(env.ctx, "g", Map{"c": "1"})
+	vassume(err == nil)
+	q, perr := ParseQuery(env.ctx, map[string]interface{}{
+		"and": []interface{}{
+			map[string]interface{}{"pattern": map[string]interface{}{"a": "?x", "b": "?y"}},
+			map[string]interface{}{"pattern": map[string]interface{}{"c": "?x"}},
+		},
+	})
+	vassume(perr == nil)
+	p := vhTry(func() {
+		ExecQuery(env.ctx, q, env.loc, QueryContext{Locations: []string{env.loc.Name}}, InitialQueryResult(env.ctx))
+	})
+	vassert(!p, "no-panic")
+	vhCanary(env, in)
+	vreach("end")
+}
